@@ -30,7 +30,10 @@ type c09case struct {
 	Keys    int    `json:"keys,omitempty"`
 	Target  int    `json:"target,omitempty"`
 	Feed    []int  `json:"feed,omitempty"` // sizes of the frames fed (cycled)
-	Data    uint64 `json:"dataseed"`
+	// NoCompact: no compaction in mid stream, so that a hot key is combined into its slot very
+	// many times in a row (per-slot bookkeeping must not wrap)
+	NoCompact bool   `json:"nocompact,omitempty"`
+	Data      uint64 `json:"dataseed"`
 }
 
 // key schemas: prefix columns followed by one int64 value column
@@ -234,7 +237,7 @@ func runC09case(t *vf.T, c c09case) {
 			cf.Combine(feedView(ts, rows, prefix, rnd))
 			m.feed(rows)
 			// compaction in the middle of the stream, then continue (as the spilling combiner does)
-			if rnd.Chance(0.1) {
+			if !c.NoCompact && rnd.Chance(0.1) {
 				out := cf.Compact()
 				if !checkCompact(t, "frame", m, frameRows(out), false, "mid-stream compaction") {
 					return
@@ -362,6 +365,15 @@ func runC09(r *vf.Runner) {
 			c.Feed = append(c.Feed, rnd.Pick(1, 2, 7, 128, 129, 1000))
 		}
 		run(c)
+	}
+	// hot keys: one key fed 2^16 times and more without a compaction in between
+	for hi, rows := range []int{65535, 65536, 65537, 70000, 140000} {
+		for _, keys := range []int{1, 3} {
+			if r.Quick() && (hi+keys)%2 == 0 && rows != 65536 {
+				continue
+			}
+			run(c09case{Kind: "frame", Schema: 0, Fold: "sum", Cap: 8, Scratch: 128, Rows: rows, Keys: keys, Feed: []int{1000}, NoCompact: true, Data: uint64(rows + keys)})
+		}
 	}
 	for i := 0; i < n; i++ {
 		c := c09case{Kind: "combiner", Schema: rnd.Intn(len(c09schemas)), Fold: folds[rnd.Intn(3)], Cap: rnd.Pick(1, 2, 8, 128),
